@@ -68,6 +68,13 @@ NOTES = [
     "is equally indifferent is SAMPLED by the size sweep of the correspondence / search (limits read from the tree "
     "under test), not proved - the text of the feedback message (format_contexts, format_traceback, Formatter) is "
     "not modelled",
+    "WHICH REPORT is graded (MAIN_REPORT / a Report of its own through commands with report= / a Sandbox(report=...) "
+    "object; MAIN_REPORT and a third report alive beside it, each with a healthy decoy program) and the EXECUTED TEXT "
+    "differing from the text stored under the file name (lines appended / fewer lines / another student file / CR "
+    "line ends) are not in the model: sampled (sandboxexec_where.py), the observations on the GRADED report are "
+    "compared with the model's answer for the same history, and the oracle demands that no other live report gains a "
+    "feedback or an exception (`feedback-on-another-report`); expected class / lines of the text histories come from "
+    "CPython executing the text",
 ]
 
 
